@@ -6,11 +6,24 @@ import (
 
 // C10: the process dies at any store event of `migrate apply`; running the
 // same command again completes the migration, per transaction mode.
-func verifC10(maxF, maxS int) {
+func verifC10(maxF, maxS int) { verifC10ck(maxF, maxS, false) }
+
+// verifC10ck: with checkpoints, one file (any position) may be tagged as a
+// checkpoint: a first run on the empty database starts there and the files
+// before it are never executed.
+func verifC10ck(maxF, maxS int, checkpoints bool) {
 	nf := verifChoice("files", maxF) + 1
 	ns := verifChoice("stmts", maxS) + 1
 	mode := verifTxModes[verifChoice("txmode", 3)]
 	sh := verifShape{nf: nf, ns: ns, directive: make([]string, nf), failFile: -1, failStmt: -1}
+	first := 0 // first file that is executed
+	if checkpoints {
+		sh.ckpt = verifChoice("checkpoint", nf+1)
+		if sh.ckpt > 0 {
+			first = sh.ckpt - 1
+			verifReach("checkpoint")
+		}
+	}
 	// number of store events of a complete run is at most 2 per statement + 4 per file
 	crashAt := verifInt("crashAt", 0, nf*(2*ns+4))
 	env := verifNewEnv()
@@ -67,6 +80,10 @@ func verifC10(maxF, maxS int) {
 					n++
 				}
 			}
+			if f < first {
+				verifAssert(n == 0, "files before the checkpoint are not executed on a first run")
+				continue
+			}
 			verifAssert(n >= 1, "no statement is lost")
 			if mode != txModeNone {
 				verifAssert(n == 1, "in file and all modes every statement's effect is present exactly once")
@@ -79,11 +96,13 @@ func verifC10(maxF, maxS int) {
 		}
 	}
 	verifAssert(dups <= 1, "in none mode at most the one statement in flight at the crash is executed twice")
-	verifAssert(len(final.revs) == nf, "every file has a revision at the end")
+	verifAssert(len(final.revs) == nf-first, "every executed file has a revision at the end")
 	for _, r := range final.revs {
 		verifAssert(r.applied == r.total && r.total == ns, "at the end every file is recorded as fully applied")
 	}
 }
 
 func VerifHarness_C10_quick()    { verifC10(2, 2) }
+func VerifHarness_C10_ckpt()     { verifC10ck(2, 2, true) }
+func VerifHarness_C10_ckpt3()    { verifC10ck(3, 2, true) }
 func VerifHarness_C10_thorough() { verifC10(3, 2) }
